@@ -15,7 +15,7 @@ SCALAR_REF_FIELDS = {"_laws": "UniverseLaws", "_applies_to": "Universe", "_edge_
 MEMO_ATTR = "_Vertex__qa_nb_cache"
 py_eq = z3.Function("py_eq", Ref, Ref, Bool)       # `==` on opaque user values (A4: only a function of its arguments)
 int_box = z3.Function("int_box", Int, Ref)         # an int seen as an opaque attribute value
-str_box = z3.Function("str_box", Str, Ref)
+str_box = T.str_box
 
 
 def bind(results, fn):
@@ -151,7 +151,7 @@ class FullEngine(Engine):
             return [(p, self.module_member(mod, n))]
         if n in ("len", "isinstance", "issubclass", "type", "list", "tuple", "set", "dict", "hasattr", "getattr",
                  "setattr", "delattr", "repr", "hex", "id", "str", "int", "max", "min", "range", "enumerate", "sorted",
-                 "super", "hash", "object", "bool"):
+                 "super", "hash", "object", "bool", "dir"):
             return [(p, VBuiltin(n))]
         if n in EXC_PARENTS:
             return [(p, VConst(("excclass", n)))]
@@ -173,6 +173,8 @@ class FullEngine(Engine):
             node = kind[1]
             if isinstance(node, ast.Constant):
                 return self.ev_Constant(node, None)[0][1]
+            if isinstance(node, ast.JoinedStr):
+                return VStr(z3.String(f"const:{mod.name}.{n}"))      # a module-level string built once at import time
             return VConst(("modconst", mod.name, n))
         if kind[0] == "ext":
             return VModule("ext:" + kind[1])
@@ -224,6 +226,9 @@ class FullEngine(Engine):
                 if len(cns) == 1:
                     cn = cns.pop()
                 out.append((q, self.new_list(q, T.seq_of(*[i.term for i in items]), cn)))
+            elif all(isinstance(i, VStr) for i in items):
+                sq = z3.Unit(items[0].term) if len(items) == 1 else z3.Concat(*[z3.Unit(i.term) for i in items])
+                out.append((q, self.new_strlist(q, sq)))
             elif all(isinstance(i, VInt) for i in items):
                 out.append((q, VOpaque("intlist")))
             else:
@@ -266,8 +271,8 @@ class FullEngine(Engine):
         for part in e.values:
             nxt = []
             for (q, acc) in res:
-                if acc is None:
-                    nxt.append((q, None))
+                if acc is None or isinstance(acc, VRaise):
+                    nxt.append((q, acc))
                     continue
                 if isinstance(part, ast.Constant):
                     nxt.append((q, acc + [z3.StringVal(part.value)]))
@@ -282,6 +287,26 @@ class FullEngine(Engine):
                             nxt.append((r, acc + [v.term]))
                         elif isinstance(v, VInt):
                             nxt.append((r, acc + [z3.IntToStr(v.term)]))
+                        elif isinstance(v, VRef) and v.role == "opaque" and getattr(self.cur, "module", "").endswith("plantuml"):
+                            nxt.append((r, acc + [T.py_str(v.term)]))
+                        else:
+                            nxt.append((r, None))
+                elif isinstance(part, ast.FormattedValue) and part.format_spec is None and part.conversion == -1:
+                    # an expression that may fork (subscripts, attribute reads): exact where its value has a string form
+                    try:
+                        rs = self.eval(part.value, q)
+                    except Unsupported:
+                        nxt.append((q, None))
+                        continue
+                    for (r, v) in rs:
+                        if isinstance(v, VRaise):
+                            nxt.append((r, v))
+                        elif isinstance(v, VStr):
+                            nxt.append((r, acc + [v.term]))
+                        elif isinstance(v, VInt):
+                            nxt.append((r, acc + [z3.IntToStr(v.term)]))
+                        elif isinstance(v, VRef) and v.role == "opaque":
+                            nxt.append((r, acc + [T.py_str(v.term)]))      # format(value, ""): the str() of an opaque value
                         else:
                             nxt.append((r, None))
                 else:
@@ -289,7 +314,9 @@ class FullEngine(Engine):
             res = nxt
         out = []
         for (q, acc) in res:
-            if acc is None:
+            if isinstance(acc, VRaise):
+                out.append((q, acc))
+            elif acc is None:
                 out.append((q, VOpaque("fstring")))
             elif not acc:
                 out.append((q, VStr(z3.StringVal(""))))
@@ -346,6 +373,12 @@ class FullEngine(Engine):
             return [(p, None)]
         if isinstance(a, VStr) and isinstance(b, VStr) and isinstance(op, ast.Add):
             return [(p, VStr(z3.Concat(a.term, b.term)))]
+        if isinstance(a, VList) and a.elem_cname in (None, "<str>") and isinstance(b, VStr) and isinstance(op, ast.Add) and aug:
+            # list += "text": the list is extended by the characters of the string
+            p.st.write("selems", a.ref, z3.Concat(p.st.read("selems", a.ref), T.chars(b.term)))
+            return [(p, None)]
+        if isinstance(a, VSet) and isinstance(b, VStrSet) and isinstance(op, ast.BitOr) and aug:
+            return [(p, None)]          # a set of strings whose contents are not modelled
         if isinstance(a, (VOpaque, VStr)) or isinstance(b, (VOpaque, VStr)):
             return [(p, VOpaque("concat"))]
         raise Unsupported(f"binary {type(op).__name__} on {type(a).__name__}, {type(b).__name__}")
@@ -372,7 +405,7 @@ class FullEngine(Engine):
     def ref_of(self, v):
         if isinstance(v, VMeta):
             return v.term
-        if isinstance(v, (VRef, VCallback, VAttrs, VAdj)):
+        if isinstance(v, (VRef, VCallback, VAttrs, VAdj, VOptTable, VOpts)):
             return v.term
         if isinstance(v, (VList, VSet, VDict, VNet)):
             return v.ref
@@ -401,6 +434,10 @@ class FullEngine(Engine):
                 c = T.eq(a.term, b.term)
             elif isinstance(a, VSeq) and isinstance(b, VSeq) and not ident:
                 c = T.eq(a.term, b.term)
+            elif isinstance(a, VRef) and a.role == "opaque" and isinstance(b, VStr) and not ident:
+                c = py_eq(a.term, str_box(b.term))
+            elif isinstance(a, VStr) and isinstance(b, VRef) and b.role == "opaque" and not ident:
+                c = py_eq(str_box(a.term), b.term)
             elif isinstance(a, VInt) and isinstance(b, VRef) and b.role == "opaque" and not ident:
                 c = py_eq(int_box(a.term), b.term)
             elif isinstance(a, VRef) and a.role == "opaque" and isinstance(b, VInt) and not ident:
@@ -429,6 +466,14 @@ class FullEngine(Engine):
             return p.st.read("setmem", cont.ref, xr)
         if isinstance(cont, VDict) and xr is not None:
             return T.Mem(p.st.read("dkeys", cont.ref), xr)
+        if isinstance(cont, VOptTable):
+            if isinstance(x, VCls):
+                return p.st.read("opt_has", cont.term, x.term)
+            if isinstance(x, VStr) and z3.is_string_value(x.term) and x.term.as_string() == "skinparams":
+                return T.opt_has_skin(cont.term)
+            raise Unsupported("`in` on an option table with this kind of key")
+        if isinstance(cont, VOpts) and isinstance(x, VStr):
+            return p.st.read("od_has", cont.term, x.term)
         if isinstance(cont, VConst) and isinstance(cont.value, tuple) and cont.value[0] == "memo":
             owner = cont.value[1]
             d, u, f = self.memo_key(x)
@@ -479,8 +524,10 @@ class FullEngine(Engine):
             if attr == "_SemiSingleton__semisingleton_hashfunc":
                 return [(p, VCallback(T.hf_of(recv.term), "hf"))]
             raise Unsupported(f"metaclass attribute {attr}")
-        if isinstance(recv, (VList, VSet, VDict, VOwned, VSeq, VGlobalDict, VStr, VOpaque, VAttrs, VAdj, VNet)):
+        if isinstance(recv, (VList, VSet, VDict, VOwned, VSeq, VGlobalDict, VStr, VOpaque, VAttrs, VAdj, VNet, VOptTable, VOpts, VStrSet)):
             return [(p, VBound(recv, attr))]
+        if isinstance(recv, VRef) and recv.role == "opaque" and attr == "items" and getattr(self.cur, "module", "").endswith("plantuml"):
+            return [(p, VBound(VAttrs(recv.term), "items"))]      # an option value used as a dictionary
         if isinstance(recv, VConst) and isinstance(recv.value, tuple) and recv.value[0] in ("memo", "dyndict", "pydict"):
             return [(p, VBound(recv, attr))]
         if isinstance(recv, VConst) and recv.value == ("uuid4",) and attr == "int":
@@ -597,7 +644,9 @@ class FullEngine(Engine):
             if mem and mem[0] == "method":
                 return [(p, VFunc(f"{mem[2]}.{attr}"))]
         if attr == "__name__":
-            return [(p, VOpaque("classname"))]
+            return [(p, VStr(T.cls_name(recv.term)))]
+        if attr == "__mro__":
+            return [(p, VMro(recv.term))]
         raise Unsupported(f"class attribute {attr}")
 
     def contract_name_for(self, owner, attr, setter=False):
@@ -861,6 +910,28 @@ class FullEngine(Engine):
             for (q, side) in self.fork(p, p.st.read("smap_has", M, k), "smap"):
                 out.append((q, VRef(q.st.read("smap_val", M, k), None, "opaque")) if side else (q, VRaise("KeyError")))
             return out
+        if isinstance(recv, VOptTable):
+            if isinstance(idx, VCls):
+                out = []
+                for (q, side) in self.fork(p, p.st.read("opt_has", recv.term, idx.term), "optkey"):
+                    out.append((q, VOpts(q.st.read("opt_get", recv.term, idx.term))) if side else (q, VRaise("KeyError")))
+                return out
+            if isinstance(idx, VStr) and z3.is_string_value(idx.term) and idx.term.as_string() == "skinparams":
+                out = []
+                for (q, side) in self.fork(p, T.opt_has_skin(recv.term), "skinkey"):
+                    out.append((q, VAttrs(T.opt_skin(recv.term))) if side else (q, VRaise("KeyError")))
+                return out
+            raise Unsupported("option table subscript")
+        if isinstance(recv, VOpts) and isinstance(idx, VStr):
+            out = []
+            for (q, side) in self.fork(p, p.st.read("od_has", recv.term, idx.term), "optname"):
+                out.append((q, VRef(q.st.read("od_val", recv.term, idx.term), None, "opaque")) if side else (q, VRaise("KeyError")))
+            return out
+        if isinstance(recv, VMro) and isinstance(idx, VInt):
+            out = []
+            for (q, side) in self.fork(p, z3.And(idx.term >= 0, idx.term < T.mro_len(recv.cls)), "mroidx"):
+                out.append((q, VCls(T.mro_at(recv.cls, idx.term), None)) if side else (q, VRaise("IndexError")))
+            return out
         if isinstance(recv, VRef) and isinstance(idx, VStr):
             # BaseObject.__getitem__ -> getattr
             return self.call_contract("BaseObject.__getitem__", {"self": recv, "name": idx}, p)
@@ -911,6 +982,17 @@ class FullEngine(Engine):
                 raise Unsupported("registry key / value")
             p.st.write("smap_has", (recv.value[1], k), z3.BoolVal(True))
             p.st.write("smap_val", (recv.value[1], k), r_)
+            return [(p, None)]
+        if isinstance(recv, VOpts) and isinstance(idx, VStr):
+            r_ = self.ref_of(v)
+            if r_ is None:
+                raise Unsupported("option value")
+            p.st.write("od_has", (recv.term, idx.term), z3.BoolVal(True))
+            p.st.write("od_val", (recv.term, idx.term), r_)
+            return [(p, None)]
+        if isinstance(recv, VOptTable) and isinstance(idx, VCls) and isinstance(v, VOpts):
+            p.st.write("opt_has", (recv.term, idx.term), z3.BoolVal(True))
+            p.st.write("opt_get", (recv.term, idx.term), v.term)
             return [(p, None)]
         if isinstance(recv, VDict):
             k = self.ref_of(idx)
@@ -978,7 +1060,55 @@ class FullEngine(Engine):
                         return [(r, VSeq(T.Without(s, yr), ecn, "list"))]
                     return bind(self.eval(g.ifs[0].comparators[0], q), k2)
                 return bind(self.eval(g.iter, p), k1)
+            # [a for a in dir(X) if R.match(a)]  -> the names dir() lists for X that the pattern object R matches, in dir() order
+            if (isinstance(e.elt, ast.Name) and isinstance(g.target, ast.Name) and e.elt.id == g.target.id and len(g.ifs) == 1
+                    and isinstance(g.iter, ast.Call) and isinstance(g.iter.func, ast.Name) and g.iter.func.id == "dir" and len(g.iter.args) == 1
+                    and isinstance(g.ifs[0], ast.Call) and isinstance(g.ifs[0].func, ast.Attribute) and g.ifs[0].func.attr == "match"
+                    and len(g.ifs[0].args) == 1 and isinstance(g.ifs[0].args[0], ast.Name) and g.ifs[0].args[0].id == g.target.id):
+                def kd(q, xv):
+                    if not isinstance(xv, VRef):
+                        raise Unsupported("dir() of " + type(xv).__name__)
+
+                    def kr(r, rv):
+                        if not (isinstance(rv, VRef) and rv.role == "opaque"):
+                            raise Unsupported("pattern object")
+                        return [(r, self.new_strlist(r, self.attr_names(r.st, xv.term, rv.term), "attributes"))]
+                    return bind(self.eval(g.ifs[0].func.value, q), kr)
+                return bind(self.eval(g.iter.args[0], p), kd)
         raise Unsupported("list comprehension of unsupported shape: " + ast.unparse(e))
+
+    def dyn_key(self, S):
+        """identity of the dynamic-attribute part of a heap (what dir() / getattr of an object depend on)"""
+        a, b = S._fs("dyn_has"), S._fs("dyn_val")
+        k = (a.base.name(), tuple(id(u) for u in a.updates), b.base.name(), tuple(id(u) for u in b.updates))
+        tab = self.__dict__.setdefault("_dyn_ids", {})
+        if k not in tab:
+            tab[k] = (len(tab), a, b)
+        return tab[k][0]
+
+    def attr_names(self, S, x, rgx):
+        """[a for a in dir(x) if rgx.match(a)] in heap S: an uninterpreted sequence of names (dir and re are not modelled)"""
+        return z3.Function(f"attr_names@{self.dyn_key(S)}", Ref, Ref, T.SSeq)(x, rgx)
+
+    def attr_map(self, S, x, names):
+        """{a: x[a] for a in names} in heap S, as an opaque mapping value"""
+        return z3.Function(f"attr_map@{self.dyn_key(S)}", Ref, T.SSeq, Ref)(x, names)
+
+    def ev_DictComp(self, e, p):
+        # {a: X[a] for a in NAMES}
+        if len(e.generators) == 1:
+            g = e.generators[0]
+            if (isinstance(g.target, ast.Name) and not g.ifs and isinstance(e.key, ast.Name) and e.key.id == g.target.id
+                    and isinstance(e.value, ast.Subscript) and isinstance(e.value.slice, ast.Name) and e.value.slice.id == g.target.id):
+                def kx(q, xv):
+                    def kn(r, nv):
+                        if not (isinstance(xv, VRef) and isinstance(nv, VList) and nv.elem_cname == "<str>"):
+                            raise Unsupported("dict comprehension operands")
+                        # getattr on a name that dir() listed is assumed not to raise (A12)
+                        return [(r, VRef(self.attr_map(r.st, xv.term, r.st.read("selems", nv.ref)), None, "opaque"))]
+                    return bind(self.eval(g.iter, q), kn)
+                return bind(self.eval(e.value.value, p), kx)
+        raise Unsupported("dict comprehension of unsupported shape: " + ast.unparse(e))
 
     # ------------------------------------------------------------------ calls
     def ev_Call(self, e, p: Path):
@@ -1011,6 +1141,24 @@ class FullEngine(Engine):
                 and f.value.func.id == "super":
             selfv = p.env.get("self") or p.env.get("cls")
             return self.eval_args(e, p, lambda q, args, kw: self.call_method(selfv, f.attr, args, kw, q, via_super=self.cur.cls))
+        # fmt.format(**mapping): the result is a function of the format value and the mapping (str.format, assumed not to raise)
+        if (isinstance(f, ast.Attribute) and f.attr == "format" and not e.args and len(e.keywords) == 1 and e.keywords[0].arg is None):
+            def kf(q, fv):
+                if not (isinstance(fv, VRef) and fv.role == "opaque"):
+                    raise Unsupported("str.format on " + type(fv).__name__)
+
+                def km(r, mv):
+                    mr = self.ref_of(mv)
+                    if mr is None:
+                        raise Unsupported("format mapping")
+                    return [(r, VRef(T.fmt_apply(fv.term, mr), None, "opaque"))]
+                return bind(self.eval(e.keywords[0].value, q), km)
+            return bind(self.eval(f.value, p), kf)
+        # lst.extend(<generator over a set of strings whose contents are not modelled>)
+        if (isinstance(f, ast.Attribute) and f.attr == "extend" and len(e.args) == 1 and isinstance(e.args[0], ast.GeneratorExp)
+                and len(e.args[0].generators) == 1 and isinstance(e.args[0].generators[0].iter, ast.Name)
+                and isinstance(p.env.get(e.args[0].generators[0].iter.id), (VSet, VStrSet))):
+            return bind(self.eval(f.value, p), lambda q, recv: self.call_container_method(recv, "extend", [VConst(("strgen",))], {}, q))
         if isinstance(f, ast.Attribute):
             def k1(q, recv):
                 if isinstance(recv, VRaise):
@@ -1086,6 +1234,12 @@ class FullEngine(Engine):
             return self.call_external(fv.dotted[4:], args, kw, p)
         if isinstance(fv, VConst) and isinstance(fv.value, tuple) and fv.value[0] == "excclass":
             return [(p, VOpaque("exception"))]
+        if isinstance(fv, VRef) and fv.role == "opaque" and len(args) == 2 and not kw and getattr(self.cur, "module", "").endswith("plantuml"):
+            # a user function stored in an option table, called with (object, options): the string it returns (A7: deterministic;
+            # assumed to return and to return a str)
+            a_, b_ = self.ref_of(args[0]), self.ref_of(args[1])
+            if a_ is not None and b_ is not None:
+                return [(p, VStr(T.ocall2_str(fv.term, a_, b_)))]
         raise Unsupported(f"call of {type(fv).__name__}")
 
     def call_external(self, dotted, args, kw, p):
@@ -1104,6 +1258,11 @@ class FullEngine(Engine):
                 p.st.write(f_, r, z3.Empty(T.ISeq))
             out.append((p, VNet(r)))
             return out
+        if dotted == "re.compile" and len(args) == 1 and isinstance(args[0], VStr):
+            r = T.rx_compile(args[0].term)          # assumed (A10): re.compile returns a re.Pattern object
+            p.assume(T.is_pattern(r))
+            p.assume(r != NONE)
+            return [(p, VRef(r, None, "opaque"))]
         if dotted == "collections.deque" and len(args) == 1:
             sq, ecn = self.iter_seq(p, args[0])
             return [(p, self.new_list(p, sq, ecn, "deque"))]
@@ -1207,6 +1366,8 @@ class FullEngine(Engine):
             else:
                 raise Unsupported(f"call to {qualname}: missing argument {prm.name}")
         spec = self.build_spec(c, p.st.copy(), full, p, site="call")
+        for g_ in spec.gdefs:
+            p.assume(g_)
         # typing of arguments is part of the precondition
         for prm in c.params:
             for f in self.typing_facts(prm, full[prm.name]):
@@ -1287,7 +1448,7 @@ class FullEngine(Engine):
 
     def typing_facts(self, prm: Param, v: V):
         ty = prm.ty
-        if ty in ("int", "bool", "str", "any", "attrs", "cls", "clsopt", "pack", "adj") or ty.startswith("cb:") or ty.startswith("iter") or ty.startswith("dict") or ty.startswith("list:") or ty.startswith("seq:"):
+        if ty in ("int", "bool", "str", "any", "attrs", "cls", "clsopt", "pack", "adj", "opttable", "opts") or ty.startswith("cb:") or ty.startswith("iter") or ty.startswith("dict") or ty.startswith("list:") or ty.startswith("seq:"):
             return []
         if ty.startswith("cls<="):
             if isinstance(v, VCls):
@@ -1423,6 +1584,18 @@ class FullEngine(Engine):
                 return out
         if isinstance(recv, VStr) and name == "join" and len(args) == 1 and isinstance(args[0], VList):
             return [(p, VStr(T.SJoin(recv.term, p.st.read("selems", args[0].ref))))]
+        if isinstance(recv, VStr) and name == "join" and len(args) == 1 and isinstance(args[0], VRef) and args[0].role == "opaque":
+            return [(p, VStr(T.join_o(recv.term, args[0].term)))]
+        if isinstance(recv, VList) and recv.elem_cname in (None, "<str>") and name == "extend" and len(args) == 1:
+            a = args[0]
+            if isinstance(a, VList) and a.elem_cname in (None, "<str>"):
+                p.st.write("selems", recv.ref, z3.Concat(p.st.read("selems", recv.ref), p.st.read("selems", a.ref)))
+                p.st.write("elems", recv.ref, T.cat(p.st.elems(recv.ref), p.st.elems(a.ref)))
+                return [(p, NONE_V)]
+            if isinstance(a, VConst) and a.value == ("strgen",):
+                extra = T.fresh("generated", T.SSeq)      # strings produced from a set whose contents are not modelled
+                p.st.write("selems", recv.ref, z3.Concat(p.st.read("selems", recv.ref), extra))
+                return [(p, NONE_V)]
         if isinstance(recv, VSet):
             if name == "add" and len(args) == 1:
                 p.st.write("setmem", (recv.ref, self.ref_of(args[0])), z3.BoolVal(True))
@@ -1518,8 +1691,18 @@ class FullEngine(Engine):
                 return [(p, VInt(T.Len(a.term)))]
             if isinstance(a, VOwned):
                 return [(p, VInt(T.Len(p.st.read(a.fieldname, a.owner))))]
+            if isinstance(a, VList) and a.elem_cname == "<str>":
+                return [(p, VInt(z3.Length(p.st.read("selems", a.ref))))]
             if isinstance(a, VList):
                 return [(p, VInt(T.Len(p.st.elems(a.ref))))]
+            if isinstance(a, VMro):
+                return [(p, VInt(T.mro_len(a.cls)))]
+            if isinstance(a, VAttrs):
+                return [(p, VInt(T.ad_len(a.term)))]
+            if isinstance(a, (VSet, VStrSet)):
+                n_ = T.fresh("setlen", Int)          # the size of a set is not modelled: any non-negative number
+                p.assume(n_ >= 0)
+                return [(p, VInt(n_))]
         if name == "type" and len(args) == 1 and isinstance(args[0], VRef):
             return [(p, VCls(T.cls_of(args[0].term), None))]
         if name == "type" and len(args) == 1 and isinstance(args[0], VCls):
@@ -1537,6 +1720,8 @@ class FullEngine(Engine):
                 return [(p, VBool(z3.BoolVal(False)))]
             if isinstance(a, VRef) and isinstance(c, VCls):
                 return [(p, VBool(T.sub(T.cls_of(a.term), c.term)))]
+            if isinstance(a, VRef) and isinstance(c, VModule) and c.dotted == "ext:re.Pattern":
+                return [(p, VBool(T.is_pattern(a.term)))]
         if name in ("tuple", "list") and len(args) <= 1:
             if not args:
                 return [(p, VSeq(T.EMPTY(), None, "tuple"))] if name == "tuple" else [(p, self.new_list(p, T.EMPTY()))]
@@ -1581,6 +1766,15 @@ class FullEngine(Engine):
             return [(p, VOpaque(name))]
         if name == "set" and not args:
             return [(p, self.new_set(p))]
+        if name == "set" and len(args) == 1:
+            a = args[0]
+            if isinstance(a, VList) and a.elem_cname == "<str>":
+                return [(p, VStrSet("set of strings"))]
+            if isinstance(a, (VSeq, VOwned, VList)):
+                sq, ecn = self.iter_seq(p, a)
+                sv = self.new_set(p, ecn)
+                p.st.write_where("setmem", lambda ad, r=sv.ref, sq=sq: (T.eq(ad[0], r), T.Mem(sq, ad[1])))
+                return [(p, sv)]
         if name == "dict" and not args:
             return [(p, self.new_dict(p))]
         if name == "hasattr" and len(args) == 2 and isinstance(args[0], VRef) and isinstance(args[1], VStr):
